@@ -92,7 +92,10 @@ func VerifC14Elect() {
 	}), "staking.SetConsensusParameters")
 	c14Must(reg.SetConsensusParameters(ctx, &registry.ConsensusParameters{}), "registry.SetConsensusParameters")
 	c14Must(bcn.SetConsensusParameters(ctx, &beacon.ConsensusParameters{Backend: beacon.BackendInsecure}), "beacon.SetConsensusParameters")
-	c14Must(bcn.SetBeacon(ctx, []byte("verif entropy 0123456789abcdef01")), "SetBeacon")
+	// (natively the permutations are whatever the real DRBG derives from the entropy; repeated native runs vary it)
+	entropy := []byte("verif entropy 0123456789abcdef01")
+	entropy[0] = byte(symx.Attempt())
+	c14Must(bcn.SetBeacon(ctx, entropy), "SetBeacon")
 	c14Must(consensusState.NewMutableState(ctx.State()).SetConsensusParameters(ctx, &genesis.Parameters{FeatureVersion: &version.Version{Major: 100}}), "consensus.SetConsensusParameters")
 	params := &scheduler.ConsensusParameters{
 		MinValidators:          1,
